@@ -217,6 +217,9 @@ class C01(Prop):
         "PylifeVerif.C01.fkm_chunk_independent",
         "PylifeVerif.C01.threePoint_chunk_independent",
         "PylifeVerif.C01.chunkLocalIndex_correct",
+        "PylifeVerif.C01.recorder_chunk_local_index_addresses_sample",
+        "PylifeVerif.C01.recorder_chunk_local_index_addresses_sample_threePoint",
+        "PylifeVerif.C01.fourPoint_index_valid_chunked",
     ]
     PARTIAL = {}
     ASSUMPTIONS = [
@@ -345,6 +348,11 @@ class C02(Prop):
         "PylifeVerif.ThreePoint.tpRun_eq_fpRun",
         "PylifeVerif.C02.fkm_eq_spec",
         "PylifeVerif.C02.fkm_partition",
+        "PylifeVerif.C02.fourPoint_eq_spec_chunked",
+        "PylifeVerif.C02.threePoint_eq_spec_chunked",
+        "PylifeVerif.C02.fkm_eq_spec_chunked",
+        "PylifeVerif.C02.fourPoint_partition_chunked",
+        "PylifeVerif.C02.fkm_partition_chunked",
     ]
     PARTIAL = {}
     ASSUMPTIONS = [
@@ -483,6 +491,13 @@ class C03(Prop):
         "PylifeVerif.C03.findTurns_insert_nonreversal",
         "PylifeVerif.C03.findTurnsNan_reindex",
         "PylifeVerif.C03.findTurnsNan_index_valid",
+        "PylifeVerif.C03.findTurns_eq_numpy",
+        "PylifeVerif.C03.findTurns_insert_nonreversal_index",
+        "PylifeVerif.C03.fourPoint_insert_nonreversal",
+        "PylifeVerif.C03.fourPoint_insert_nonreversal_chunked",
+        "PylifeVerif.C03.threePoint_insert_nonreversal",
+        "PylifeVerif.C03.fkm_insert_nonreversal",
+        "PylifeVerif.C03.fkm_insert_nonreversal_chunked",
     ]
     PARTIAL = {}
     ASSUMPTIONS = [
